@@ -17,7 +17,7 @@ type c19Shared struct {
 	rule    Rule
 }
 
-func c19Op(k int, sh *c19Shared, res *int) {
+func c19Op(k int, sh *c19Shared, res *int, pn int) {
 	switch k {
 	case 0:
 		_, err := sh.tok.AuthorizerFor(WithSingularRootPublicKey(sh.rootPub), gPatient)
@@ -31,6 +31,12 @@ func c19Op(k int, sh *c19Shared, res *int) {
 		}
 		a.AddFact(sh.fact)
 		a.AddCheck(sh.check)
+		// a check with a regular expression that this process has not evaluated before (whatever the
+		// library remembers about patterns is written, not only read, while the other goroutine runs)
+		pat := "^file1"[:1+pn%6]
+		a.AddFact(Fact{Predicate{Name: "nm", IDs: []Term{String("file1")}}})
+		a.AddCheck(Check{Queries: []Rule{{Head: Predicate{Name: "query"}, Body: []Predicate{{Name: "nm", IDs: []Term{Variable("s")}}},
+			Expressions: []Expression{{Value{Variable("s")}, Value{String(pat)}, BinaryRegex}}}}})
 		a.AddPolicy(DefaultAllowPolicy)
 		if a.Authorize() == nil {
 			*res = 1
@@ -122,17 +128,17 @@ func VerifC19Shared() {
 	vObserve("pair", c19OpNames[i]+"+"+c19OpNames[j])
 	// what each operation yields when it runs alone
 	var alone1, alone2 int
-	c19Op(i, sh, &alone1)
-	c19Op(j, sh, &alone2)
+	c19Op(i, sh, &alone1, 1)
+	c19Op(j, sh, &alone2, 2)
 	var r1, r2 int
 	done := make(chan struct{})
 	vRaceDetect("C19")
 	go func() {
-		c19Op(i, sh, &r1)
+		c19Op(i, sh, &r1, 3)
 		done <- struct{}{}
 	}()
 	go func() {
-		c19Op(j, sh, &r2)
+		c19Op(j, sh, &r2, 4)
 		done <- struct{}{}
 	}()
 	<-done
